@@ -326,6 +326,14 @@ def unitri(rng):
 LENGTH_UNITS = ["m", "mm", "cm", "in", "ft"]
 
 
+def pick_units(rng):
+    """two length units; identical ones (a conversion by factor 1, which must still append a step) 20% of the time"""
+    a = rng.choice(LENGTH_UNITS)
+    b = a if rng.random() < 0.2 else rng.choice(LENGTH_UNITS)
+    return a, b
+
+
+
 class Budget:
     """keeps the accumulated scale exponent of a history bounded so that lattice histories stay exact in
     doubles and float histories stay well conditioned"""
@@ -383,7 +391,7 @@ def gen_step(rng, stream, budget):
             return ["non_uniform_scale", [s * 10.0 ** e for s, e in zip(sg, es)], allow]
         return ["flip", rng.randint(0, 2)]
     if r < 0.46:
-        a, b = rng.sample(LENGTH_UNITS, 2)
+        a, b = pick_units(rng)
         f = abs(math.log10(float(UNITS_IN_M[a] / UNITS_IN_M[b])))
         if budget.take(f):
             return ["convert_units", a, b]
